@@ -128,7 +128,8 @@ func (x *Enc) typeFacts(t types.Type, v Val, h Heap) Term {
 }
 
 func sliceWF(v Val) Term {
-	return and(app(">=", v.ts[0], "0"), app(">=", v.ts[1], "0"), app(">=", v.ts[2], "0"), app("<=", v.ts[2], v.ts[3]),
+	// capacity bound: no Go slice has more than 2^62 elements
+	return and(app(">=", v.ts[0], "0"), app(">=", v.ts[1], "0"), app(">=", v.ts[2], "0"), app("<=", v.ts[2], v.ts[3]), app("<=", v.ts[3], "4611686018427387904"),
 		implies(eq(v.ts[0], "0"), and(eq(v.ts[2], "0"), eq(v.ts[3], "0"))))
 }
 
@@ -148,7 +149,9 @@ func (x *Enc) embAddr(structT types.Type, field string, base Term) Term {
 		x.sc.declFun(n, []string{"Int"}, "Int")
 		inv := sym("embinv!" + cleanKey(typeKey(structT)) + "." + field)
 		x.sc.declFun(inv, []string{"Int"}, "Int")
-		x.sc.assert(fmt.Sprintf("(forall ((p Int)) (! (and (= (%s (%s p)) p) (=> (> p 0) (> (%s p) 0))) :pattern ((%s p))))", inv, n, n, n))
+		// injective; addresses of embedded parts lie at or above the address of the enclosing object
+		// (so parts of an object allocated during the call are themselves above the entry allocation top)
+		x.sc.assert(fmt.Sprintf("(forall ((p Int)) (! (and (= (%s (%s p)) p) (=> (> p 0) (>= (%s p) p))) :pattern ((%s p))))", inv, n, n, n))
 	}
 	return app(n, base)
 }
@@ -161,7 +164,7 @@ func (x *Enc) elemAddr(elemT types.Type, base, idx Term) Term {
 		i2 := sym("elemaddr_i!" + cleanKey(typeKey(elemT)))
 		x.sc.declFun(i1, []string{"Int"}, "Int")
 		x.sc.declFun(i2, []string{"Int"}, "Int")
-		x.sc.assert(fmt.Sprintf("(forall ((b Int) (i Int)) (! (and (= (%s (%s b i)) b) (= (%s (%s b i)) i) (> (%s b i) 0)) :pattern ((%s b i))))", i1, n, i2, n, n, n))
+		x.sc.assert(fmt.Sprintf("(forall ((b Int) (i Int)) (! (and (= (%s (%s b i)) b) (= (%s (%s b i)) i) (> (%s b i) 0) (=> (> b 0) (>= (%s b i) b))) :pattern ((%s b i))))", i1, n, i2, n, n, n, n))
 	}
 	return app(n, base, idx)
 }
